@@ -135,7 +135,7 @@ func (g *g) leaf(op int, wf bool) *node {
 		case bad:
 			n.arg = g.pickArg([]arg{{t: 's', s: g.text()}, {t: 'f', f: 1.5}, {t: 'n'}, {t: 'z'}, {t: 'b', b: true}, {t: 's', s: "9223372036854775808"}, {t: 's', s: "1_000"}, {t: 's', s: ""}})
 		case textual:
-			n.arg = arg{t: 's', s: g.pick([]string{strconv.FormatInt(v, 10), "+" + strconv.FormatInt(v&0xffff, 10), "007", "-0", "+0"})}
+			n.arg = arg{t: 's', s: g.pick([]string{strconv.FormatInt(v, 10), "+" + strconv.FormatInt(v&0xffff, 10), "007", "-0", "+0", "010", "-0777", "0" + strconv.FormatInt(v&0xfff, 10)})}
 		case g.rng.Intn(8) == 0:
 			n.arg = arg{t: 'u', u: g.rng.Uint64() >> uint(g.rng.Intn(64))}
 		default:
@@ -433,7 +433,7 @@ func (g *g) sleaf(valid bool) *snode {
 	case 'e':
 		return n
 	case 'i':
-		v = g.pick([]string{strconv.FormatInt(g.int64(), 10), "+5", "007", "-0"})
+		v = g.pick([]string{strconv.FormatInt(g.int64(), 10), "+5", "007", "-0", "010", "-0777", "0" + strconv.Itoa(g.rng.Intn(5000))})
 		if !valid {
 			v = g.pick([]string{"banana", "1.5", "9223372036854775808", "", "1_0", "0x10", g.text()})
 		}
@@ -515,7 +515,11 @@ func (g *g) sentence(depth int) *sentence {
 }
 
 func (g *g) emitGS(emit func(hxlib.Case), kind string, s *sentence) {
-	line := "gs " + s.spec() + " " + s.oracle()
+	oracle, noModel := "~", false
+	if res := guarded(func() string { oracle = s.oracle(); return "" }); res != "" {
+		noModel = true // the implementation panics on this sentence: run it on the implementation only, the monitor reports it
+	}
+	line := "gs " + s.spec() + " " + oracle
 	want := expectSentence(s)
 	if want == "" {
 		g.r.Count("gs-class:outside-grammar")
@@ -525,7 +529,7 @@ func (g *g) emitGS(emit func(hxlib.Case), kind string, s *sentence) {
 	if s.where != nil && s.where.kind != 'W' && s.where.kids[len(s.where.kids)-1].kind != 'W' {
 		g.r.Count("gs-ends-in-group")
 	}
-	emit(hxlib.Case{Lines: []string{line}, Kind: kind, NonTrivial: want != "" && s.where != nil})
+	emit(hxlib.Case{Lines: []string{line}, Kind: kind, NoModel: noModel, NonTrivial: want != "" && s.where != nil})
 }
 
 // ---- text → object: mutated sentences and raw strings ---------------------------------------------
